@@ -617,7 +617,50 @@ def g_nfah_hist(rng):
     return "nfah " + " ".join(steps)
 
 
+# ---------------------------------------------------------------- labelled transition systems
+def g_lts(rng):
+    big = rng.random() < 0.12
+    n = rng.randint(13, 30) if big else rng.randint(1, 8)
+    nl = rng.randint(1, 4 if big else 3)
+    ne = rng.randint(n, 3 * n) if big else rng.randint(0, 3 * n)
+    edges = []
+    for _ in range(ne):
+        edges.append((rng.randrange(n), rng.randrange(nl), rng.randrange(n)))
+    if rng.random() < 0.4 and edges:
+        edges.append(rng.choice(edges))                  # parallel edge
+    if rng.random() < 0.2:
+        nl_extra = nl + 1                                # a label with a single edge far away
+        edges.append((rng.randrange(n), nl_extra, rng.randrange(n)))
+    overload = rng.choice([0, 0, 0, 1, 2])
+    out = rng.choice([n, n, n, rng.randint(0, n), max(0, n - 1)])
+    part, rel = "-", "-"
+    if overload == 0:
+        nb = rng.randint(1, min(n, 4))
+        blocks = [[] for _ in range(nb)]
+        for q in range(n):
+            blocks[rng.randrange(nb)].append(q)
+        blocks = [b for b in blocks if b]
+        nb = len(blocks)
+        # random preorder on blocks: reflexive-transitive closure of random pairs
+        r = {(i, i) for i in range(nb)}
+        for _ in range(rng.randint(0, nb * nb)):
+            r.add((rng.randrange(nb), rng.randrange(nb)))
+        ch = True
+        while ch:
+            ch = False
+            for (a, b) in list(r):
+                for (c, d) in list(r):
+                    if b == c and (a, d) not in r:
+                        r.add((a, d))
+                        ch = True
+        part = "/".join(",".join(map(str, b)) for b in blocks)
+        rel = ",".join(f"{a}.{b}" for (a, b) in sorted(r))
+    es = ";".join(f"{a},{b},{c}" for (a, b, c) in edges) or "-"
+    return f"lts {n} {es} {part} {rel} {out} {overload}"
+
+
 GENERATORS = {
+    "lts": g_lts,
     "nfah_incl": g_nfah_incl, "nfah_ops": g_nfah_ops, "nfah_hist": g_nfah_hist,
     "incl": g_incl, "inclall": g_inclall, "union": g_union, "unionpre": g_unionpre, "uniondisj": g_uniondisj,
     "isect": g_isect, "isectbu": g_isectbu, "trim": g_trim, "cand": g_cand, "reduce": g_reduce, "simdown": g_simdown, "simup": g_simup,
